@@ -4,6 +4,7 @@ import math
 import numpy as np
 
 from .common import all_close, quiet
+from .common import guarded
 from . import vario, c01
 
 INFO = dict(
@@ -39,7 +40,7 @@ def margin_ok(d, edges, maxlag_abs, tol=1e-9):
 
 
 def transforms(rng, case, coords, values):
-    """yield (name, exact, new_coords, new_values, edge_scale, exp_scale)"""
+    """yield (name, exact, new_coords, new_values, edge_scale, exp_scale[, base_values])"""
     n, dim = coords.shape
     lattice = case['kind'] == 'lattice'
     perm = rng.permutation(n)
@@ -63,6 +64,13 @@ def transforms(rng, case, coords, values):
         yield 'rotate90', True, r90, values, 1.0, 1.0
     c = float(rng.choice([8.0, -3.0, 1024.0]))
     yield 'shift_values', case_values_int(values), coords, values + c, 1.0, 1.0
+    # a constant far larger than the spread of the observations / factors far from 1: exact on values
+    # quantised to multiples of 2^-10, so no tolerance hides a result that merely "looks constant"
+    vq = np.round(values * 1024.0) / 1024.0
+    c = float(rng.choice([2.0 ** 20, -2.0 ** 30, 2.0 ** 36, 1.0e6]))
+    yield 'shift_values_large', True, coords, vq + c, 1.0, 1.0, vq
+    k = float(rng.choice([2.0 ** -40, 2.0 ** -24, 2.0 ** 40, -2.0 ** 25]))
+    yield 'scale_values_extreme', True, coords, vq * k, 1.0, k * k, vq
     k = float(rng.choice([2.0, -4.0, 0.5]))
     yield 'scale_values_pow2', True, coords, values * k, 1.0, k * k
     k = float(rng.choice([3.0, -1.7, 0.1]))
@@ -82,6 +90,7 @@ def case_values_int(values):
     return bool(np.all(values == np.round(values)))
 
 
+@guarded
 def check_base(ctx, case):
     est = case['kw']['estimator']
     binf = case['kw']['bin_func']
@@ -102,7 +111,17 @@ def check_base(ctx, case):
         ctx.reject('fewer-than-2-distinct-distances-within-maxlag')   # outside C02's precondition
         return
     nonempty = int(np.sum(c0 > 0))
-    for (name, exact, nc, nv, escale, xscale) in transforms(ctx.rng, case, coords, values):
+    base0 = (e0, c0, x0)
+    for tr in transforms(ctx.rng, case, coords, values):
+        (name, exact, nc, nv, escale, xscale) = tr[:6]
+        e0, c0, x0 = base0
+        if len(tr) > 6:
+            # the relation is checked against a base with the (quantised) values given by the transform
+            try:
+                e0, c0, x0, _, _ = observe(dict(case, values=tr[6].tolist(), dtype='float64'))
+            except (ValueError, AttributeError, RuntimeError) as e:
+                ctx.reject(type(e).__name__)
+                continue
         clustering = binf in ('kmeans', 'ward')
         if clustering and not exact:
             continue
@@ -137,7 +156,7 @@ def check_base(ctx, case):
             bad = ('edges', e0.tolist(), e1.tolist())
         elif c1.tolist() != c0.tolist():
             bad = ('bin_count', c0.tolist(), c1.tolist())
-        elif not all_close(x1, x0 * xscale, rel=tol_x):
+        elif not all_close(x1 / xscale, x0, rel=tol_x):      # compared at the scale of the base
             bad = ('experimental', (x0 * xscale).tolist(), x1.tolist())
         if bad and clustering:
             # the clustering back-end is not bit-reproducible on tie-heavy data (multi-threaded sums): if
